@@ -79,8 +79,12 @@ def run(ctx):
 
     cover = Cover({"layout_parser_init": PP.Parser.__init__, "_skipws": PP.Parser._skipws})
     cover.install()
+    from pgverif.mon.contracts import Contracts
+
     mon = LRMonitor()
     mon.install()
+    con = Contracts(("skipws",))
+    con.install()
     maxlen = 4 if ctx.tier == "quick" else 5
     try:
         for name, g, alphabet in glrwork.grammar_stream(ctx, overlap_share=0.0):
@@ -90,7 +94,9 @@ def run(ctx):
     finally:
         mon.uninstall()
         cover.uninstall()
+        con.uninstall()
     cover.report(ctx)
+    con.report(ctx)
 
 
 def parsers_for(text, kind):
@@ -183,7 +189,11 @@ def relayout_check(ctx, g, built, case, w, a, b):
         except pgx.CaseTimeout:
             ctx.inconc("timeout")
             continue
-        except pgx.BudgetExceeded:
+        except pgx.BudgetExceeded as e:
+            if type(e).__name__ == "ContractBroken":
+                ctx.case(key, True)
+                ctx.violation("contract-broken", dict(case, parser=name), str(e))
+                continue
             ctx.count("diverged_not_judged")
             continue
         ctx.case(key, nontrivial, sample={"grammar": case["texts"][case["kind"]], "parser": name, "a": ta, "b": tb})
